@@ -236,6 +236,16 @@ def run(tier, seed):
     p = e2e.Play(PLAY_HEAD % ("", "ok"), outdir_arg="/proc/verif-no-such-dir/out", timeout=30)
     plays.append(p)
     meta.append({"expect_fail": True, "what": "the output directory cannot be created", "tag": {"site": "directory"}, "config": p.text, "args": ["-o", "/proc/..."]})
+    # a documented cause has occurred and THEN the play is ended by SIGTERM (a "legitimate" way to end a play, which by
+    # itself gives status 0): the cause must still decide the status
+    import signal as _sig
+    for what, extra, acts, aud, site in (
+            ("an auditor was disappointed, then SIGTERM during a long action", "  :slow sleep 8", "slow", "audience\n  bob audits throughout\n  bob expects always: t < 0\nend\n", "audit-then-sigterm"),
+            ("an action failed on a concurrent line, then SIGTERM", "  :slow sleep 8", "bad?; slow", "audience\n  bob audits throughout\n  bob expects never: t >= 0\nend\n", "audit-then-sigterm"),
+            ):
+        p = e2e.Play(PLAY_HEAD % (extra, acts) + aud, timeout=40, sigspec=(1.2, _sig.SIGTERM))
+        plays.append(p)
+        meta.append({"expect_fail": True, "what": what, "tag": {"site": site}, "config": p.text, "args": ["SIGTERM at 1.2 s"]})
     # upload operations: a stand-in `scp` first on the PATH that succeeds, exits 1, or is killed by a signal
     # (status -1 for the program: "failed" must not be read off a positive exit code)
     up_scratch = Scratch("verif-c03-")
